@@ -145,13 +145,9 @@ def expireIndex (now : Int) (c : Coll) (ix : Index) : R Coll :=
       else match ix.keys with
         | [] => .error .other              -- StopIteration on an empty key list
         | (field, _) :: _ =>
-          let expired := c.docs.filter (fun p => meetsExpiry field secs now p.2)
-          -- `del self[exp_id]` uses the raw `_id`: a sub-document `_id` is unhashable
-          if expired.any (fun p => match p.1 with | .doc _ => true | _ => false) then
-            -- documents before the first such one are already deleted when the TypeError comes
-            .error .typeErr
-          else pure { c with docs := c.docs.filter (fun p => !meetsExpiry field secs now p.2),
-                             od := c.od.filter (fun k => !(expired.any (fun p => pyEq p.1 k))) }
+          pure { c with docs := c.docs.filter (fun p => !meetsExpiry field secs now p.2),
+                        od := c.od.filter (fun k =>
+                          !(c.docs.any (fun p => meetsExpiry field secs now p.2 && pyEq p.1 k))) }
 
 /-- `_remove_expired_documents()` -/
 def expire (now : Int) (c : Coll) : R Coll :=
@@ -464,8 +460,8 @@ def dropIndexColl (now : Int) (c : Coll) (name : String) : Coll × R Unit :=
                  ttlIndexes := c1.ttlIndexes.filter (fun i => i.name != name) }, .ok ())
     else (c1, .error .opFail)
 
-/-- `drop_indexes()`: only the `indexes` dict is replaced -/
-def dropIndexesColl (c : Coll) : Coll := { c with indexes := [] }
+/-- `drop_indexes()` -/
+def dropIndexesColl (c : Coll) : Coll := { c with indexes := [], ttlIndexes := [] }
 
 /-- `CollectionStore.drop()` -/
 def dropColl (c : Coll) : Coll :=
